@@ -326,7 +326,8 @@ func (p *Publish) EncodeTo(w io.Writer) (int, error) {
 		length += 2
 	}
 
-	if length > MaxMessageSize {
+	// The body is assembled behind the space reserved for the fixed header
+	if length > MaxMessageSize || length > len(buf) {
 		return 0, ErrMessageTooLarge
 	}
 
